@@ -190,4 +190,67 @@ Section Vec.
   Definition v2_srem (s : F) (v : V2 F) := v2_map (fun c => s %% c) v.
   Definition v3_srem (s : F) (v : V3 F) := v3_map (fun c => s %% c) v.
   Definition v4_srem (s : F) (v : V4 F) := v4_map (fun c => s %% c) v.
+
+  (* ---- compound-assignment forms: separately written bodies `$(self.$field OP= rhs.$field);+`
+     (impl_assignment_operator!, *_assign_element_wise); each updates every field in turn ---- *)
+  Definition v1_add_assign (a b : V1 F) : V1 F := v1_zip (add O) a b.
+  Definition v1_sub_assign (a b : V1 F) : V1 F := v1_zip (sub O) a b.
+  Definition v1_mul_assign (a : V1 F) (s : F) : V1 F := v1_map (fun c => mul O c s) a.
+  Definition v1_div_assign (a : V1 F) (s : F) : V1 F := v1_map (fun c => div O c s) a.
+  Definition v1_rem_assign (a : V1 F) (s : F) : V1 F := v1_map (fun c => rem O c s) a.
+  Definition v1_add_assign_ew (a b : V1 F) : V1 F := v1_zip (add O) a b.
+  Definition v1_add_assign_ews (a : V1 F) (s : F) : V1 F := v1_map (fun c => add O c s) a.
+  Definition v1_sub_assign_ew (a b : V1 F) : V1 F := v1_zip (sub O) a b.
+  Definition v1_sub_assign_ews (a : V1 F) (s : F) : V1 F := v1_map (fun c => sub O c s) a.
+  Definition v1_mul_assign_ew (a b : V1 F) : V1 F := v1_zip (mul O) a b.
+  Definition v1_mul_assign_ews (a : V1 F) (s : F) : V1 F := v1_map (fun c => mul O c s) a.
+  Definition v1_div_assign_ew (a b : V1 F) : V1 F := v1_zip (div O) a b.
+  Definition v1_div_assign_ews (a : V1 F) (s : F) : V1 F := v1_map (fun c => div O c s) a.
+  Definition v1_rem_assign_ew (a b : V1 F) : V1 F := v1_zip (rem O) a b.
+  Definition v1_rem_assign_ews (a : V1 F) (s : F) : V1 F := v1_map (fun c => rem O c s) a.
+  Definition v2_add_assign (a b : V2 F) : V2 F := v2_zip (add O) a b.
+  Definition v2_sub_assign (a b : V2 F) : V2 F := v2_zip (sub O) a b.
+  Definition v2_mul_assign (a : V2 F) (s : F) : V2 F := v2_map (fun c => mul O c s) a.
+  Definition v2_div_assign (a : V2 F) (s : F) : V2 F := v2_map (fun c => div O c s) a.
+  Definition v2_rem_assign (a : V2 F) (s : F) : V2 F := v2_map (fun c => rem O c s) a.
+  Definition v2_add_assign_ew (a b : V2 F) : V2 F := v2_zip (add O) a b.
+  Definition v2_add_assign_ews (a : V2 F) (s : F) : V2 F := v2_map (fun c => add O c s) a.
+  Definition v2_sub_assign_ew (a b : V2 F) : V2 F := v2_zip (sub O) a b.
+  Definition v2_sub_assign_ews (a : V2 F) (s : F) : V2 F := v2_map (fun c => sub O c s) a.
+  Definition v2_mul_assign_ew (a b : V2 F) : V2 F := v2_zip (mul O) a b.
+  Definition v2_mul_assign_ews (a : V2 F) (s : F) : V2 F := v2_map (fun c => mul O c s) a.
+  Definition v2_div_assign_ew (a b : V2 F) : V2 F := v2_zip (div O) a b.
+  Definition v2_div_assign_ews (a : V2 F) (s : F) : V2 F := v2_map (fun c => div O c s) a.
+  Definition v2_rem_assign_ew (a b : V2 F) : V2 F := v2_zip (rem O) a b.
+  Definition v2_rem_assign_ews (a : V2 F) (s : F) : V2 F := v2_map (fun c => rem O c s) a.
+  Definition v3_add_assign (a b : V3 F) : V3 F := v3_zip (add O) a b.
+  Definition v3_sub_assign (a b : V3 F) : V3 F := v3_zip (sub O) a b.
+  Definition v3_mul_assign (a : V3 F) (s : F) : V3 F := v3_map (fun c => mul O c s) a.
+  Definition v3_div_assign (a : V3 F) (s : F) : V3 F := v3_map (fun c => div O c s) a.
+  Definition v3_rem_assign (a : V3 F) (s : F) : V3 F := v3_map (fun c => rem O c s) a.
+  Definition v3_add_assign_ew (a b : V3 F) : V3 F := v3_zip (add O) a b.
+  Definition v3_add_assign_ews (a : V3 F) (s : F) : V3 F := v3_map (fun c => add O c s) a.
+  Definition v3_sub_assign_ew (a b : V3 F) : V3 F := v3_zip (sub O) a b.
+  Definition v3_sub_assign_ews (a : V3 F) (s : F) : V3 F := v3_map (fun c => sub O c s) a.
+  Definition v3_mul_assign_ew (a b : V3 F) : V3 F := v3_zip (mul O) a b.
+  Definition v3_mul_assign_ews (a : V3 F) (s : F) : V3 F := v3_map (fun c => mul O c s) a.
+  Definition v3_div_assign_ew (a b : V3 F) : V3 F := v3_zip (div O) a b.
+  Definition v3_div_assign_ews (a : V3 F) (s : F) : V3 F := v3_map (fun c => div O c s) a.
+  Definition v3_rem_assign_ew (a b : V3 F) : V3 F := v3_zip (rem O) a b.
+  Definition v3_rem_assign_ews (a : V3 F) (s : F) : V3 F := v3_map (fun c => rem O c s) a.
+  Definition v4_add_assign (a b : V4 F) : V4 F := v4_zip (add O) a b.
+  Definition v4_sub_assign (a b : V4 F) : V4 F := v4_zip (sub O) a b.
+  Definition v4_mul_assign (a : V4 F) (s : F) : V4 F := v4_map (fun c => mul O c s) a.
+  Definition v4_div_assign (a : V4 F) (s : F) : V4 F := v4_map (fun c => div O c s) a.
+  Definition v4_rem_assign (a : V4 F) (s : F) : V4 F := v4_map (fun c => rem O c s) a.
+  Definition v4_add_assign_ew (a b : V4 F) : V4 F := v4_zip (add O) a b.
+  Definition v4_add_assign_ews (a : V4 F) (s : F) : V4 F := v4_map (fun c => add O c s) a.
+  Definition v4_sub_assign_ew (a b : V4 F) : V4 F := v4_zip (sub O) a b.
+  Definition v4_sub_assign_ews (a : V4 F) (s : F) : V4 F := v4_map (fun c => sub O c s) a.
+  Definition v4_mul_assign_ew (a b : V4 F) : V4 F := v4_zip (mul O) a b.
+  Definition v4_mul_assign_ews (a : V4 F) (s : F) : V4 F := v4_map (fun c => mul O c s) a.
+  Definition v4_div_assign_ew (a b : V4 F) : V4 F := v4_zip (div O) a b.
+  Definition v4_div_assign_ews (a : V4 F) (s : F) : V4 F := v4_map (fun c => div O c s) a.
+  Definition v4_rem_assign_ew (a b : V4 F) : V4 F := v4_zip (rem O) a b.
+  Definition v4_rem_assign_ews (a : V4 F) (s : F) : V4 F := v4_map (fun c => rem O c s) a.
 End Vec.
